@@ -1,3 +1,32 @@
+mod c24;
+mod c27;
+mod c28;
+mod c29;
+mod common;
+mod explore;
+mod sim;
+mod spec;
+
+use pvkit::session::CheckDef;
+use pvkit::Session;
+use std::collections::BTreeSet;
+use std::sync::Mutex;
+
+/// Known-finding signatures a check stepped over by itself (so that exploration continues).
+pub static KNOWN_SEEN: Mutex<BTreeSet<String>> = Mutex::new(BTreeSet::new());
+
+pub fn flush_known(s: &Session) {
+    let seen: Vec<String> = KNOWN_SEEN.lock().unwrap().iter().cloned().collect();
+    for sig in seen {
+        s.known_hit(&sig, 1);
+    }
+}
+
 fn main() {
-    pvkit::main(&[]);
+    pvkit::main(&[
+        CheckDef { id: "C24", level: "exploration", run: c24::run },
+        CheckDef { id: "C27", level: "exploration", run: c27::run },
+        CheckDef { id: "C28", level: "exploration", run: c28::run },
+        CheckDef { id: "C29", level: "exploration", run: c29::run },
+    ]);
 }
